@@ -216,7 +216,7 @@ CHECKS["C08"] = dict(
           "element-count helper = 4(2·rows−1), the leaves come first, the root is the last four elements = recursive pairwise hash; "
           "backends agree when their hashes agree; the batched leaf. Tie: correspondence over rows x cols x dim x batch x backend "
           "(seq/avx/avx512/default wrapper) x threads, every buffer element compared, forked child with redzones. D5/D11 (AVX512 "
-          "builders out of bounds for one row) found with replays and fixed. ALSO: all six builders and the two wrappers are translated on every run (OpenMP loops sequentially, floor on doubles modelled) and executed against the code; C08_generated_* prove for merkletree_seq and merkletree_avx that for rows = 2^k the generated builder returns exactly Model.merkleTree in the first 4(2·rows-1) words and writes nothing else (the other builders: translated and correspondence-checked, no bridge theorem yet)."),
+          "builders out of bounds for one row) found with replays and fixed. ALSO: all six builders and the two wrappers are translated on every run (OpenMP loops sequentially, floor on doubles modelled) and executed against the code; C08_generated_* prove for ALL eight (merkletree_seq/_avx/_avx512, merkletree_batch_seq/_avx/_avx512, both default wrappers) that for rows = 2^k the generated builder returns exactly the model tree (batched leaves = Model.batchLeaf) in the first 4(2·rows-1) words and writes nothing else; for the AVX512 builders the leaf level is stated as the halves of the two-at-a-time digests unconditionally, and as per-row leaves under the bit-level interleaving hypothesis on the translated two-state permutation (C06 has it at field level)."),
     technique="Lean 4 proof by induction over levels of a hand-written model + correspondence over the shape grid",
     design="§4 C08", note=NOTE_BASE)
 
